@@ -321,6 +321,16 @@ def run(ctx):
                     what = "%s(%s) in %s at %s returned %s in one history and %s in the other" % (x[1]["query"], x[1]["id"], x[1]["phase"], x[1]["cal"], json.dumps(x[1]["result"])[:160], json.dumps(y[1]["result"])[:160])
                 else:
                     sig = {"kind": "trace_differs", "entry": x[0], "cut": rp["cut"]}
+                    # a fill during the opening auction that is not at the open (finding F18: an auction order re-matched as a bar order at the day's close)
+                    if x[0] == "TRADE" and y[0] == "TRADE" and before_open and x[1].endswith("T00:00:00"):
+                        try:
+                            book = x[2]["book"]
+                            rec_ = next(r_ for r_ in S["stocks"] + S["futures"] if r_["id"] == book)
+                            open_ = rec_["bars"][ci][1]
+                            if abs(float(x[2]["price"]) - open_) > 1e-9 or abs(float(y[2]["price"]) - open_) > 1e-9:
+                                sig = {"kind": "auction_trade_not_at_open"}
+                        except Exception:
+                            pass
                     sx, sy = json.dumps(x), json.dumps(y)
                     j = next((c for c in range(min(len(sx), len(sy))) if sx[c] != sy[c]), 0)
                     what = "trace entry %d (%s) before the cut differs: ...%s | ...%s" % (i, x[0], sx[max(0, j - 120): j + 60], sy[max(0, j - 120): j + 60])
